@@ -30,7 +30,12 @@ class Watched(np.ndarray):
     def __array_ufunc__(self, ufunc, method, *inputs, **kwargs):
         Watched.count += 1
         inputs = tuple(np.asarray(i) if isinstance(i, Watched) else i for i in inputs)
-        return getattr(ufunc, method)(*inputs, **kwargs)
+        if kwargs.get("out") is not None:      # numpy's own reductions (np.var) pass their intermediate arrays as out=
+            kwargs["out"] = tuple(np.asarray(o) if isinstance(o, Watched) else o for o in kwargs["out"])
+        r = getattr(ufunc, method)(*inputs, **kwargs)
+        # like a plain ndarray subclass: results stay arrays of the subclass (0-d results too, numpy's reductions write into them)
+        wrap = lambda v: np.asarray(v).view(Watched) if isinstance(v, (np.ndarray, np.generic)) else v   # noqa: E731
+        return tuple(wrap(v) for v in r) if isinstance(r, tuple) else wrap(r)
 
 
 def corrupt(c, rng):
@@ -312,7 +317,34 @@ def run(ctx):
 
 
 def replay(ctx, path):
+    import ast
     data = json.load(open(path))
     print(json.dumps(data, indent=1)[:3000])
+    if "fn" in data and "desc" in data and "shapes" in data:
+        import einx  # noqa: F401
+        arrays = []
+        for sh in data["shapes"]:
+            if isinstance(sh, list):
+                arrays.append(np.zeros(tuple(sh)))
+            else:
+                try:
+                    arrays.append(ast.literal_eval(sh))
+                except (ValueError, SyntaxError):
+                    arrays.append(sh)
+        kw = {}
+        for k, v in (data.get("kwargs") or {}).items():
+            try:
+                kw[k] = ast.literal_eval(v) if isinstance(v, str) else v
+            except (ValueError, SyntaxError):
+                kw[k] = v
+        what = data.get("corruption") or "replay"
+        o, viol = _work((what, data["fn"], data["desc"], arrays, kw, what.startswith("rule:") or bool(data.get("must_fail")), data.get("backend")))
+        print("re-executed:", o, [t for t, _ in viol])
+        known = [t for t, _ in viol if common.match_known(ctx.known, t) is not None]
+        if viol and len(known) < len(viol):
+            print(f"VIOLATION property=C03 replay={path}")
+            return 1
+        print("not reproduced on this tree (zeros of the recorded shapes; the recorded element types are not kept)" if not viol else "only known findings")
+        return 0
     print(f"VIOLATION property=C03 replay={path}")
     return 1
